@@ -62,12 +62,14 @@ struct Plan {
     empty_loop: bool,
     /// the program starts with a `while` whose condition draws with WHILE_BOUND, three times
     while_probe: bool,
+    /// the text starts with `loop(rz, 2)` / `resetRandom;` / row showing random(RESET_BOUND)
+    loop_reset: Option<usize>,
 }
 
 /// Add the probe inputs RP0 (64 bit) and RB0, RB1 (1 bit each) in front of the header; rows
 /// that carry a random probe lose their X / C entries, so that one evaluation is one item.
 fn plant(b: &mut Built, ch: &mut Ch) -> Plan {
-    let mut plan = Plan { reset_pair: None, value_probe: vec![], bits_probe: vec![], virtual_probe: false, empty_loop: false, while_probe: false };
+    let mut plan = Plan { reset_pair: None, value_probe: vec![], bits_probe: vec![], virtual_probe: false, empty_loop: false, while_probe: false, loop_reset: None };
     for (k, (n, bits)) in [("RP0", 64usize), ("RB0", 1), ("RB1", 1)].iter().enumerate() {
         b.sigs.insert(k, Sig { name: n.to_string(), bits: *bits, kind: Kind::In(InVal::Val(0)) });
         b.prog.header.insert(k, n.to_string());
@@ -139,7 +141,21 @@ fn plant(b: &mut Built, ch: &mut Ch) -> Plan {
     // In a third of the cases the program starts with: a row showing random(RESET_BOUND),
     // `resetRandom;`, a second such row. Both are executed unconditionally and the first draw
     // of the run is the first row's, so the second row must show the same value.
-    if ch.chance(1, 3) {
+    let which = ch.upto(6);
+    if which == 2 || which == 3 {
+        // (or, instead:) the very first statements of the text are `loop(rz, 2)` / `resetRandom;`
+        // / a row showing random(RESET_BOUND) / `end loop`: no `random` stands before that
+        // `resetRandom;` in the text, yet in the second pass it restarts a generator that has been
+        // drawn from - both passes show the same value.
+        let id = b.prog.row_count();
+        let mut es: Vec<Entry> = vec![Entry::Paren(Expr::Random(Box::new(Expr::lit(RESET_BOUND)))), Entry::Num(0, Radix::Dec), Entry::Num(0, Radix::Dec)];
+        for c in cols.iter().skip(3) {
+            es.push(if c.role == ColRole::ExpectedOnly { Entry::X(true) } else { Entry::Num(0, Radix::Dec) });
+        }
+        b.prog.stmts.insert(0, Stmt::Loop("rz".into(), Expr::lit(2), vec![Stmt::ResetRandom, Stmt::Row(id, es)]));
+        plan.loop_reset = Some(id);
+    }
+    if which < 2 {
         let next_id = b.prog.row_count();
         let mk = |id: usize| -> Stmt {
             let mut es: Vec<Entry> = vec![Entry::Paren(Expr::Random(Box::new(Expr::lit(RESET_BOUND)))), Entry::Num(0, Radix::Dec), Entry::Num(0, Radix::Dec)];
@@ -154,7 +170,9 @@ fn plant(b: &mut Built, ch: &mut Ch) -> Plan {
         plan.reset_pair = Some((next_id, next_id + 1));
     }
     if ch.chance(1, 2) && !b.analysis.virtuals.iter().any(|v| v == "VR") {
-        b.prog.stmts.insert(0, Stmt::Declare("VR".into(), Expr::Random(Box::new(Expr::lit(VIRTUAL_BOUND)))));
+        // (behind the planted loop, if there is one: nothing that draws stands before it)
+        let at = if plan.loop_reset.is_some() { 1 } else { 0 };
+        b.prog.stmts.insert(at, Stmt::Declare("VR".into(), Expr::Random(Box::new(Expr::lit(VIRTUAL_BOUND)))));
         plan.virtual_probe = true;
     }
     b.cols = col_roles(&b.prog.header, &b.sigs);
@@ -167,7 +185,7 @@ impl Property for C17 {
         "C17"
     }
     fn rule(&self) -> &'static str {
-        "profile `random`: flow programs with random(e) in row entries, let, bounds, ite conditions and branches, nested in its own argument, in a virtual signal; bounds >= 2 by construction (2, small, (e&7)+2, 2^k up to 2^62); resetRandom at any statement position; seeds {0, 1, u64::MAX, random} forced through the seed hook; planted probes: `(random(B_r))` in a 64-bit input and `bits(2, random(B_r+1))` in two 1-bit inputs with a bound unique to the source row r (half of such rows keep their X/C entries: the g items of one evaluation then all show the one value drawn for it), `declare VR = random(999983)`, a body-less `loop(ez, (random(700001) & 1))` as first statement (its bound is evaluated once on entry: exactly one draw with that bound), a `while` counting a variable down from 2 whose condition draws (evaluated for 2, 1, 0: exactly three draws), and random(7919) in unselected branches of constant-condition ite. Oracle (self-consistent, on the crate's own event log): every random evaluation is exactly one generator draw (GenDraw, Draw pairs), 0 <= value < bound; after every Reset the values repeat those drawn from the start of the run over the longest common prefix of the bound sequences; the same seed gives the same log; no draw with bound 7919 (lazy ite); for each probed row the number of draws with its bound equals the number of its evaluations (items / g, the last one possibly cut by the cap), and each item shows exactly the value drawn for its evaluation (resp. its two low bits): one draw per evaluation, used as if it were a literal; VR is drawn once per checked row and shows the drawn value; and a straight-line control program that performs the same sequence of random(bound) / resetRandom with the same seed draws exactly the same values (the draws are those of the run's generator, in order). In a third of the cases two or three iterators over the same test are alive at once and stepped alternately by a generated schedule (same seed, same script): each yields exactly the items of the run on its own (every run has its own generator). Non-trivial: >= 2 draws and (a reset followed by a draw, or a checked probe, or a lazy sentinel present); distinct by source + signals + driver + seed."
+        "profile `random`: flow programs with random(e) in row entries, let, bounds, ite conditions and branches, nested in its own argument, in a virtual signal; bounds >= 2 by construction (2, small, (e&7)+2, 2^k up to 2^62); resetRandom at any statement position; seeds {0, 1, u64::MAX, random} forced through the seed hook; planted probes: `(random(B_r))` in a 64-bit input and `bits(2, random(B_r+1))` in two 1-bit inputs with a bound unique to the source row r (half of such rows keep their X/C entries: the g items of one evaluation then all show the one value drawn for it), `declare VR = random(999983)`, a `row / resetRandom; / row` triple with random(500009) at the top (or instead, as the very first statements of the text, `loop(rz, 2)` / `resetRandom;` / such a row / `end loop`, where no `random` stands before the `resetRandom;` in the text: both passes show the same value), a body-less `loop(ez, (random(700001) & 1))` as first statement (its bound is evaluated once on entry: exactly one draw with that bound), a `while` counting a variable down from 2 whose condition draws (evaluated for 2, 1, 0: exactly three draws), and random(7919) in unselected branches of constant-condition ite. Oracle (self-consistent, on the crate's own event log): every random evaluation is exactly one generator draw (GenDraw, Draw pairs), 0 <= value < bound; after every Reset the values repeat those drawn from the start of the run over the longest common prefix of the bound sequences; the same seed gives the same log; no draw with bound 7919 (lazy ite); for each probed row the number of draws with its bound equals the number of its evaluations (items / g, the last one possibly cut by the cap), and each item shows exactly the value drawn for its evaluation (resp. its two low bits): one draw per evaluation, used as if it were a literal; VR is drawn once per checked row and shows the drawn value; and a straight-line control program that performs the same sequence of random(bound) / resetRandom with the same seed draws exactly the same values (the draws are those of the run's generator, in order). In a third of the cases two or three iterators over the same test are alive at once and stepped alternately by a generated schedule (same seed, same script): each yields exactly the items of the run on its own (every run has its own generator). Non-trivial: >= 2 draws and (a reset followed by a draw, or a checked probe, or a lazy sentinel present); distinct by source + signals + driver + seed."
     }
     fn cases(&self, tier: Tier) -> u64 {
         match tier {
@@ -176,7 +194,7 @@ impl Property for C17 {
         }
     }
     fn required_classes(&self) -> Vec<&'static str> {
-        vec!["draws>=2", "reset-then-draw", "bound=2", "bound>=2^32", "virtual-probe-checked", "seed=0", "seed=max", "replayed-prefix>=2", "value-probe-checked", "bits-probe-checked", "lazy-sentinel-planted", "probe-in-loop", "control-program-compared", "planted-reset-checked", "empty-loop-bound-draw-checked", "while-condition-draws-checked", "interleaved-iterators-compared", "probe-in-expanded-row"]
+        vec!["draws>=2", "reset-then-draw", "bound=2", "bound>=2^32", "virtual-probe-checked", "seed=0", "seed=max", "replayed-prefix>=2", "value-probe-checked", "bits-probe-checked", "lazy-sentinel-planted", "probe-in-loop", "control-program-compared", "planted-reset-checked", "empty-loop-bound-draw-checked", "while-condition-draws-checked", "interleaved-iterators-compared", "probe-in-expanded-row", "planted-reset-in-loop-checked"]
     }
     fn run(&self, s: &Streams) -> CaseOut {
         let mut out = CaseOut::new();
@@ -359,6 +377,19 @@ impl Property for C17 {
                     format!("the program starts with `loop(ez, (random({EMPTY_BOUND}) & 1))` / `end loop`: its bound is evaluated once on entry, so exactly one draw with that bound is due; the run's log has {n}"),
                 );
                 return out;
+            }
+        }
+        if let Some(rid) = plan.loop_reset {
+            let shown: Vec<i64> = row_items.iter().filter(|r| tag_of(r) == Some(rid)).filter_map(|r| get(r, "RP0")).collect();
+            if shown.len() == 2 {
+                out.class("planted-reset-in-loop-checked");
+                if shown[0] != shown[1] {
+                    out.fail(
+                        "c17:reset-does-not-restart",
+                        format!("the program starts with `loop(rz, 2)` / `resetRandom;` / a row showing random({RESET_BOUND}) / `end loop`: the two passes show {} and {}; the second `resetRandom;` restarts the generator, so the draw repeats the first pass's", shown[0], shown[1]),
+                    );
+                    return out;
+                }
             }
         }
         if plan.while_probe && (real.ended || !real.items.is_empty()) {
